@@ -25,6 +25,9 @@ pub struct NodeView {
     /// SLAAC is enabled: addresses the stack forms itself from advertised /64 prefixes and this interface
     /// identifier are its own
     pub slaac_iid: Option<[u8; 8]>,
+    /// hardware address of the interface (6 octets on Ethernet, 8 or 2 on IEEE 802.15.4, empty on Medium::Ip):
+    /// the link-layer address options of its own NDISC messages must carry it, in an option of the right length
+    pub hw_addr: Vec<u8>,
 }
 
 pub struct Tapped {
@@ -258,6 +261,15 @@ fn check_source_rule(view: &NodeView, ip: &Ip, pkt: &Packet) -> Result<(), Viola
 }
 
 /// Protocol-specific well-formedness beyond the header syntax.
+/// The semantic well-formedness rules for one decoded packet of a node (used directly for datagrams that were
+/// decompressed from 6LoWPAN frames).
+pub fn check_packet_semantics(view: &NodeView, pkt: &Packet) -> Result<(), Violation> {
+    match &pkt.ip {
+        Some(ip) => check_semantics(view, ip, pkt, &[]),
+        None => Ok(()),
+    }
+}
+
 fn check_semantics(view: &NodeView, ip: &Ip, pkt: &Packet, _raw: &[u8]) -> Result<(), Violation> {
     let mal = |sig: &str, detail: String| -> Result<(), Violation> {
         Err(viol("C10", "wellformed", format!("C10.semantic/{}", sig), format!("{} ; {}", detail, pkt.summary())))
@@ -311,6 +323,18 @@ fn check_semantics(view: &NodeView, ip: &Ip, pkt: &Packet, _raw: &[u8]) -> Resul
                     while !o.is_empty() {
                         if o.len() < 2 || o[1] == 0 || (o[1] as usize) * 8 > o.len() {
                             return mal("ndisc-option-length", format!("NDISC option length invalid: {:?}", &o[..o.len().min(8)]));
+                        }
+                        // source (1) / target (2) link-layer address option: RS, NS, RA carry the sender's own
+                        // address as source option, NA as target option; the option is as long as the medium's address
+                        // needs (RFC 4861 4.6.1, RFC 4944 8: 8 octets for Ethernet and 802.15.4 short addresses, 16
+                        // for EUI-64)
+                        let own_opt = (o[0] == 1 && matches!(i.typ, 133 | 134 | 135)) || (o[0] == 2 && i.typ == 136);
+                        if own_opt && !view.hw_addr.is_empty() {
+                            let want = (2 + view.hw_addr.len()).div_ceil(8);
+                            let n = (o[1] as usize) * 8;
+                            if o[1] as usize != want || o[2..2 + view.hw_addr.len()] != view.hw_addr[..] || o[2 + view.hw_addr.len()..n].iter().any(|b| *b != 0) {
+                                return mal("ndisc-link-layer-address-option", format!("link-layer address option {:02x?} does not carry the interface's hardware address {:02x?} in {} x 8 octets", &o[..n.min(o.len())], view.hw_addr, want));
+                            }
                         }
                         o = &o[(o[1] as usize) * 8..];
                     }
